@@ -628,12 +628,59 @@ def one_pair(ctx, res, env, case, lines, expect_cb, heavy=True, cli=False):
     # ---- refusals and the private entry point, once per pair
     refusals(ctx, res, case, rawA, rawB, scrA, lines, expect_cb)
     direct_views(ctx, res, case, rawA, rawB, scrA, scrB, lines, expect_cb)
+    if case["seed"] % 4 == 0 and any(rawA["mask"]) and "combo" in case.get("models", ["combo"]):
+        concrete_pipeline(ctx, res, case, rawA, rawB)
     classes(res, case, rawA, scrA)
     if n_masked and case["poison"] in ("nan", "negative", "mixed", "inf", "neginf"):
         exp, use = expected_training("interaction", scrA)
         singles = sum(1 for t in np.asarray(scrA.treatment_ids)[np.asarray(scrA.observation_mask)] if list(t).count(-1) == 1)
         if len(use) >= 2 and singles >= 1:
             res.nontrivial.add(common.short_hash([rawA, case["poison"], case["seed"]]))
+
+
+PIPE = {"cases": [], "lines": [], "obs": []}
+
+
+def concrete_pipeline(ctx, res, case, rawA, rawB):
+    """the concrete composed pipeline (Model/ScorePipeline.lean, driver op pipe.dbal) on BOTH screens of the pair, same samples and
+    recorded draws: the real pipeline must give bit-identical dense matrix / scores / selection on the two screens, and the model is
+    compared with each (queued; see flush_pipe)"""
+    from harness import c06
+    rng = ctx.subrng("c04-pipe", case["seed"])
+    try:
+        pc = c06.pipe_gen(rng, case["seed"], raw=rawA)
+        la, oa = c06.pipe_eval(pc)
+        pcb = dict(pc, raw=rawB)
+        lb, ob = c06.pipe_eval(pcb)
+    except Exception as e:   # noqa: BLE001
+        res.fail("the scoring pipeline raised on one screen of the pair", dict(case, check="concrete-pipeline"), "%s: %s" % (type(e).__name__, e),
+                 "runs on both", signature="C04:score-interference:combo")
+        return
+    res.evaluations += 1
+    res.count("concrete-pipeline.pairs")
+    same = (canon(oa["dense"]) == canon(ob["dense"]) and oa["draws"] == ob["draws"] and oa["selected"] == ob["selected"]
+            and [[(p_, S.bits(x)) for p_, x in c_] for c_ in oa["chunks"]] == [[(p_, S.bits(x)) for p_, x in c_] for c_ in ob["chunks"]])
+    if not same:
+        res.fail("distance matrix / DBAL scores / selection of the real pipeline differ between screens that differ only behind the mask",
+                 dict(case, check="concrete-pipeline"), "differs", "identical", signature="C04:score-interference:combo")
+    for pc_, l_, o_ in ((pc, la, oa), (pcb, lb, ob)):
+        PIPE["cases"].append(dict(pc_, pair_seed=case["seed"], poison=case["poison"]))
+        PIPE["lines"].append(l_)
+        PIPE["obs"].append(o_)
+
+
+def flush_pipe(ctx, res):
+    from harness import c06
+    if ctx.driver is not None and PIPE["lines"]:
+        got = ctx.driver.ask(PIPE["lines"])
+        for i, (c_, o_, g) in enumerate(zip(PIPE["cases"], PIPE["obs"], got)):
+            c06.pipe_compare(res, c_, o_, g, where="C04:pipe")
+            if i % 2 == 1 and got[i - 1] != g:
+                # the theorem C04_concrete_pipeline_noninterference, executed: same output line for both screens of the pair
+                res.disagree("C04:pipe:model-differs-within-pair", {k: v for k, v in c_.items() if k != "thetas"}, got[i - 1][:200], g[:200])
+        res.traces_validated += len(PIPE["lines"])
+    for k in PIPE:
+        del PIPE[k][:]
 
 
 def classes(res, case, raw, scr):
@@ -942,6 +989,7 @@ def run(ctx, res):
                 flush(ctx, res, lines, expect_cb)
         arity_stream(ctx, res, lines, expect_cb)
         flush(ctx, res, lines, expect_cb)
+        flush_pipe(ctx, res)
     finally:
         shutil.rmtree(env, ignore_errors=True)
 
